@@ -56,8 +56,16 @@ def make_filter(spec, rec, inc):
                     simzmq.sleep(spec['period'])
                 if k >= spec.get('n', 10 ** 9):
                     self.exit('source done')
+                if spec.get('raise_after') is not None and k >= spec['raise_after']:
+                    raise RuntimeError('scripted source failure')
                 rec.add(fid, inc, 'gen', k)
-                mk = lambda: {t: Frame({'o': fid, 's': k, 'p': ['%s#%d' % (fid, inc)], 't': t}) for t in spec.get('topics', ['main'])}
+                if spec.get('image_kb'):
+                    import numpy as np
+                    side = max(1, int((spec['image_kb'] * 1024 / 3) ** 0.5))
+                    mk = lambda: {t: Frame(np.zeros((side, side, 3), np.uint8), {'o': fid, 's': k, 'p': ['%s#%d' % (fid, inc)], 't': t}, 'BGR')
+                                  for t in spec.get('topics', ['main'])}
+                else:
+                    mk = lambda: {t: Frame({'o': fid, 's': k, 'p': ['%s#%d' % (fid, inc)], 't': t}) for t in spec.get('topics', ['main'])}
                 if spec.get('lazy'):
                     def deferred():
                         rec.add(fid, inc, 'lazy-eval', k)
@@ -110,9 +118,9 @@ def filter_config(spec):
 
 
 class Pipeline:
-    def __init__(self, specs, seed=0, delay_ms=(0, 0), prop_exit='all', obey_exit='all', pub_hwm=20):
+    def __init__(self, specs, seed=0, delay_ms=(0, 0), prop_exit='all', obey_exit='all', pub_hwm=20, sub_join_ms=(0, 0), bandwidth_mbps=None):
         self.specs = {s['id']: s for s in specs}
-        self.world = simnet.NetWorld(seed=seed, delay_ms=delay_ms, pub_hwm=pub_hwm)
+        self.world = simnet.NetWorld(seed=seed, delay_ms=delay_ms, pub_hwm=pub_hwm, sub_join_ms=sub_join_ms, bandwidth_mbps=bandwidth_mbps)
         self.rec = Recorder(self.world)
         self.prop_exit, self.obey_exit = prop_exit, obey_exit
         self.results = {}     # (id, inc) -> 'returned' | exception repr
